@@ -27,6 +27,12 @@ CHECKS = {
  "C14": dict(level="exploration", tech="property-based testing: exact wire-format validator (independent JSON + RFC 3339 parser) over transmitted versions; grammar-based generation of foreign documents with reference replay",
    text="Outbound: every version the harness server receives is checked field by field (only Create/Delete/Update, exact field sets, string-or-null values, RFC 3339 Z timestamps equal to the committed instant) and the concatenation must equal the committed operations minus undo points. Inbound: documents from a grammar (permuted fields, whitespace, \\uXXXX escapes, 0-9 fractional digits) must be applied as the reference model says.",
    note="Plaintext observed at the Server trait boundary; inbound documents use the 'operations' wrapper; malformed documents out of scope.", ref="4/C14"),
+ "C16": dict(level="exploration", tech="differential (lock-step) property-based testing of the two storage backends over the whole StorageTxn surface; persistence round-trips; harness-written legacy schema files",
+   text="Generated transactions of StorageTxn calls run in lock-step on InMemoryStorage and SqliteStorage, committed or abandoned, with close/reopen and read-only probes at generated points: every return value compared (collections as multisets, errors by is_ok), full dump after every transaction and reopen. Databases written by the harness in the 0.8, 0.9, (0,1), (0,2) layouts with generated content must read back identically after the upgrade, incl. per-task operation lookup.",
+   note="In-contract calls only (set_working_set_item within range, one commit per transaction).", ref="4/C16"),
+ "C17": dict(level="exploration", tech="randomised concurrency stress (threads and processes) with generated workloads and in-transaction delays; strict post-hoc audit through a fresh handle",
+   text="2-8 workers with their own handles on one SQLite directory run generated scripts of tagged commits, undo, rebuild and reads with sleeps inside transactions; audit: each successful commit present exactly once, contiguous and in order; failed and undone commits absent; stored tasks == replay of stored operations; working-set entries unique. Evidence reports the number of commit pairs whose wall-clock intervals actually overlapped.",
+   note="Weakest use of the technique: the lock schedule is SQLite's and the OS's; only the workload is reproducible.", ref="4/C17"),
  "C18": dict(level="exploration", tech="property-based testing with hostile-value generators over the task key grammar; every read accessor under panic capture + value oracle from tasks.md",
    text="Generated task maps over all recognised keys/prefixes with hostile values (i64 extremes, beyond-calendar and beyond-i64 integers, odd syntax, malformed tag/annotation/dependency keys, unknown statuses), stored via TaskData::update on in-memory/SQLite, reloaded, and every read method of Task, TaskData, WorkingSet, DependencyMap and Replica is called under catch_unwind; interpretable values must read as exactly that instant / be listed, uninterpretable ones as None / be skipped.",
    note="Odd integer syntaxes and reserved all-uppercase tag names are no-panic only.", ref="4/C18"),
@@ -39,6 +45,9 @@ CHECKS = {
  "C05": dict(level="exploration", tech="exhaustive sweep of all short batches + property-based random batches; reference model, batch-vs-single differential, fault injection at every storage call of the commit",
    text="All batches of length <= 4 over a 7-symbol alphabet on 3 prior states (in-memory; <= 3 on SQLite in quick) plus longer random batches with arbitrary recorded old values: one-at-a-time reference model, twin replica committing one operation per commit, operation log / undo list / counters, replica invariant, and an injected error or stop at EVERY storage-call index of commit_operations must leave everything unchanged.",
    note="Storage transactions themselves assumed atomic here (C06/C16 check that).", ref="4/C05"),
+ "C06": dict(level="fault_enumeration", tech="crash-point enumeration over every storage call of a replica action on copies of a generated SQLite database + real SIGKILLs of a child process running generated scripts; fresh-handle audit against the sequence of committed states",
+   text="(a) For the last action (commit, undo, rebuild, sync) of a generated history every storage-call index x {error, stop} is injected on a copy of the directory; a fresh handle must see exactly the state after the transactions that had committed (before / after first transaction / after both for composite actions). (b) A child process runs a generated script on a SQLite directory and is SIGKILLed at a generated instant or right after reporting DONE k; the fresh-handle dump must be a committed state between 'all reported actions' and 'one more'.",
+   note="Stop = future dropped + handle closed; kill instants not reproducible (oracle sound for any instant); expected states from an in-memory twin (equivalence is C16).", ref="4/C06"),
  "C07": dict(level="exploration", tech="stateful property-based testing against an operation-log model with per-operation prior states; chain inspection for withdrawn operations",
    text="Generated valid edit/undo/stale-undo/undo-after-sync/sync histories through the real TaskData API on both storages; undo list == model suffix, reversal restores exactly the state before the undo point and removes exactly those operations, stale or synced lists are refused without change, undone unique-valued operations never appear in any version sent to the harness server.",
    note="Lone undo-point segments: only 'tasks unchanged' is asserted.", ref="4/C07"),
